@@ -766,7 +766,10 @@ fn arb_corruption() -> BoxedStrategy<Corruption> {
 }
 
 pub fn arb_c06_srv() -> BoxedStrategy<C06Srv> {
-    (arb_unit_state(), arb_unit_id(), arb_decode(), any::<u64>())
+    // unit ids: any, with the ends of the range (1, 247, 255) over-represented: address bytes whose
+    // corruption lands on a special address (0 = broadcast) are where an address-dependent
+    // mistake in the CRC input would show
+    (arb_unit_state(), prop_oneof![5 => arb_unit_id(), 1 => Just(255u8), 1 => Just(1u8), 1 => Just(247u8)], arb_decode(), any::<u64>())
         .prop_flat_map(|(st, unit, decode, select_seed)| {
             let unit = if unit == 0 { 1 } else { unit };
             let hint = WinHint::of(Some(&st));
@@ -872,6 +875,21 @@ pub fn check_c06_srv(case: &C06Srv) -> CaseResult {
             continue;
         }
         judge(&bad, &format!("{:?}", c))?;
+    }
+    // bursts confined to the address byte: every other address this frame could be mistaken for,
+    // the broadcast address 0 and the inverted address among them
+    if case.frame.unit != 0 {
+        for other in [0u8, !case.frame.unit, case.frame.unit ^ 0x81, case.frame.unit.wrapping_add(1)] {
+            if other == case.frame.unit {
+                continue;
+            }
+            let mut bad = good.clone();
+            bad[0] = other;
+            judge(&bad, &format!("address byte {:#04X} received as {:#04X}", case.frame.unit, other))?;
+            if other == 0 {
+                ok.label("address_corrupted_to_broadcast");
+            }
+        }
     }
     ok.nontrivial = acts && keep_len > 0;
     if case.frame.unit == 0 {
